@@ -19,9 +19,10 @@
       index facts of `interpolate_err_float32` are derived from the search. `positionAt_dist_on_polyline_float32`: hence
       within `1/4` px per coordinate of a point of the polyline.
       The four no-overflow conditions (`SegFinite`) REMAIN a hypothesis, restricted to the one non-degenerate bracketing
-      segment. They are believed derivable for `0 <= d0`, finite `d1` and `Bounded19` end points (`segFinite_statement`, not
-      proved: the library has "no overflow from a bound on the exact value" only for `f64 ⊗ ⊘`; the route through the
-      monotonicity lemmas of Lemmas/FloatArithMono.lean needs, per operation, the NaN side conditions and `±0` cases).
+      segment IN THIS FILE. As recorded here (`segFinite_statement`: `0 <= d0`, finite `d1`, `Bounded19` end points) the
+      derivation is FALSE — `Bounded19` does not exclude an infinite coordinate — and with `FinitePos` added it is a theorem:
+      Props/C19IeeeFinite.lean (`segFinite_statement_false`, `segFinite_of_bounded`, the `…_nofin` corollaries), on the range
+      lemmas of Lemmas/FloatErrRange32.lean.
   (3) **`positionAt_progress_err_float32`**: the same for `position_at path lengths progress` itself, any non-NaN progress,
       `lengths[0] <= 0 <= last`, `last` finite (`d = clamp(progress,0,1)·last ∈ [0, last]`, Props/C19IeeeBound.lean).
   Non-vacuity on the closed curve `(100,200) → (107,224) → (100,200)`, lengths `[0, 25, 50]`, kernel-evaluated.
@@ -290,7 +291,7 @@ def SegFinite (p0 p1 : Pos Float32) (d d0 d1 : Float) : Prop :=
   (interpPos p0 p1 d d0 d1).x.isFinite = true ∧ (interpPos p0 p1 d d0 d1).y.isFinite = true ∧
   ((d - d0) / (d1 - d0)).isFinite = true ∧ (d1 - d0).isFinite = true
 
-/-- NOT PROVED (the missing piece that would remove the hypothesis `hfin` of `positionAt_dist_err_float32` for curves with
+/-- REFUTED as stated and proved with `FinitePos` added in Props/C19IeeeFinite.lean (the piece that removes the hypothesis `hfin` of `positionAt_dist_err_float32` for curves with
 `0 <= lengths[0]` and a finite last length): the no-overflow conditions follow from the bracket, the bounds on the vertices
 and a finite `d1`. (`|x0 + (x1 − x0) w| ≤ 3·2¹⁹`, `0 ≤ d1 ⊖ d0 ≤ d1`, `0 ≤ (d ⊖ d0) ⊘ (d1 ⊖ d0) ≤ 1`.) -/
 def segFinite_statement : Prop :=
